@@ -166,6 +166,11 @@ pub fn check_one(ctx: &mut Ctx, family: &str, idx: u64, p: &PktM) {
 }
 
 pub fn run(ctx: &mut Ctx) {
+    if let Some(tape) = ctx.tape_case() {
+        // replay of a case found by the coverage-guided `model` target: the tape drives every generator decision
+        super::model_case("C07", ctx, &tape);
+        return;
+    }
     let tier = ctx.tier;
     let n = if ctx.slow_tool { 20 } else { tier.pick(60_000u64, 3_000_000u64) };
     for idx in 0..n {
